@@ -420,6 +420,143 @@ func vC09Scenario(name string, seed uint64) string {
 			return "call-in-flight-hangs-across-close"
 		}
 		return w.aftermath(took, bound)
+	case "close-after-dial-context-ended-and-connection-lost":
+		// the context given to DialWithContext ends after the connection is up (the documented `defer cancel()`), then the
+		// connection is lost, then Close: Close must still return and leave nothing behind
+		skey, ckey := vGenKey(r), vGenKey(r)
+		w := &vC09{r: r, ckey: ckey, impl: &vImpl{}}
+		w.ls = vStartLibServer(skey, []ed25519.PublicKey{ckey.Pub}, true)
+		w.px = vStartProxy(w.ls.Addr)
+		dctx, dcancel := context.WithCancel(context.Background())
+		cc, err := vDialLib(dctx, w.px.Addr, ckey, skey.Pub, WithBlock())
+		if err != nil {
+			dcancel()
+			return "setup"
+		}
+		w.cc = cc
+		cc.RegisterService(vDesc(), w.impl)
+		dcancel()
+		time.Sleep(30 * time.Millisecond)
+		w.px.CutAll()
+		time.Sleep(100 * time.Millisecond)
+		start := time.Now()
+		if !vClose(cc, 6*time.Second) {
+			return "close-hangs/" + strings.Join(vParked(), ",")
+		}
+		took := time.Since(start)
+		if took > bound {
+			return fmt.Sprintf("close-exceeds-bound/%v", took)
+		}
+		time.Sleep(60 * time.Millisecond)
+		if left := vClientLeft(); len(left) > 0 {
+			return "goroutines-left-after-close/" + strings.Join(left, ",")
+		}
+		if !vClose(cc, 2*time.Second) {
+			return "second-close-hangs"
+		}
+		return ""
+	case "state-while-close-waits-for-a-handler":
+		// C08: Close is waiting for a handler which is still serving a peer request: the connection refuses calls already,
+		// so it must not report READY any more, and those who wait for a state change must have been woken
+		w, err := vC09Setup(r)
+		if err != nil || !w.ready() {
+			return "setup"
+		}
+		vWaitUntil(2*time.Second, func() bool { return w.ls.S.OpenConnections() == 1 })
+		go func() {
+			ctx, c := context.WithTimeout(context.Background(), 2*time.Second)
+			defer c()
+			_ = w.ls.S.Invoke(peer.NewCallContext(ctx, w.ckey.Static()), "Echo", vAppMsg("slow", nil, "sleep:700"), &message.Response{})
+		}()
+		if !vWaitUntil(2*time.Second, func() bool { return len(w.impl.peek()) >= 1 }) {
+			return "setup"
+		}
+		woken := make(chan bool, 1)
+		go func() {
+			ctx, c := context.WithTimeout(context.Background(), 3*time.Second)
+			defer c()
+			woken <- w.cc.WaitForStateChange(ctx, connectivity.Ready)
+		}()
+		time.Sleep(20 * time.Millisecond)
+		closed := make(chan bool, 1)
+		start := time.Now()
+		go func() { closed <- vClose(w.cc, 6*time.Second) }()
+		time.Sleep(150 * time.Millisecond) // the handler has another half second to go
+		ierr := w.cc.Invoke(context.Background(), "Echo", vAppMsg("late", nil, ""), &message.Response{})
+		st := w.cc.GetState()
+		res := ""
+		if ierr != nil && st == connectivity.Ready {
+			res = fmt.Sprintf("closing-connection-reports-READY-while-it-refuses-calls/%v", ierr)
+		}
+		if res == "" {
+			select {
+			case ok := <-woken:
+				if !ok {
+					res = "waiter-not-woken-by-close"
+				}
+			case <-time.After(300 * time.Millisecond):
+				res = "waiter-not-woken-by-close"
+			}
+		}
+		if !<-closed {
+			return "close-hangs/" + strings.Join(vParked(), ",")
+		}
+		if res != "" {
+			return res
+		}
+		return w.aftermath(time.Since(start), bound)
+	case "undecodable-frame-on-a-ready-connection":
+		// C08: a frame which does not decode must not leave the connection READY but deaf
+		skey, ckey := vGenKey(r), vGenKey(r)
+		rs := vStartRawServer(skey, ckey.Pub)
+		defer rs.Close()
+		cc, err := vDialLib(context.Background(), rs.Addr, ckey, skey.Pub, WithBlock())
+		if err != nil {
+			return "setup"
+		}
+		impl := &vImpl{}
+		cc.RegisterService(vDesc(), impl)
+		conn := <-rs.Conns
+		replies := make(chan struct{}, 8)
+		go func() {
+			for {
+				_, b, err := conn.ReadMessage()
+				if err != nil {
+					return
+				}
+				m := &message.Message{}
+				if proto.Unmarshal(b, m) == nil && m.GetResponse() != nil {
+					replies <- struct{}{}
+				}
+			}
+		}()
+		app, _ := proto.Marshal(vAppMsg("m", nil, ""))
+		req := func(i int) []byte {
+			return vFrame(&message.Message{Exchange: &message.Message_Request{Request: &message.Request{Method: "Echo", CallId: fmt.Sprintf("00000000-0000-4000-8000-%012d", i), Payload: app}}})
+		}
+		conn.WriteMessage(websocket.BinaryMessage, req(1))
+		select {
+		case <-replies:
+		case <-time.After(2 * time.Second):
+			return "setup"
+		}
+		for _, junk := range [][]byte{{0xff, 0xff, 0xff, 0xff}, {}, {0x0a}, r.Bytes(7)} {
+			conn.WriteMessage(websocket.BinaryMessage, junk)
+		}
+		time.Sleep(30 * time.Millisecond)
+		conn.WriteMessage(websocket.BinaryMessage, req(2))
+		select {
+		case <-replies:
+		case <-time.After(2 * time.Second):
+			if cc.GetState() == connectivity.Ready {
+				vClose(cc, 3*time.Second)
+				return "ready-but-deaf-after-undecodable-frame"
+			}
+		}
+		if !vClose(cc, 6*time.Second) {
+			return "close-hangs/" + strings.Join(vParked(), ",")
+		}
+		return ""
 	case "concurrent-close":
 		w, err := vC09Setup(r)
 		if err != nil || !w.ready() {
@@ -451,7 +588,7 @@ func vC09Scenario(name string, seed uint64) string {
 	return "unknown-scenario"
 }
 
-var vC09Names = []string{"idle-longer-than-write-timeout", "calls-in-flight", "inbound-requests-with-slow-handlers", "reconnect-in-progress", "inbound-burst", "concurrent-close", "close-right-after-dial", "write-fails-with-message-in-hand", "peer-closed-first", "close-while-call-is-being-prepared", "reconnect-after-several-failures"}
+var vC09Names = []string{"idle-longer-than-write-timeout", "calls-in-flight", "inbound-requests-with-slow-handlers", "reconnect-in-progress", "inbound-burst", "concurrent-close", "close-right-after-dial", "write-fails-with-message-in-hand", "peer-closed-first", "close-while-call-is-being-prepared", "reconnect-after-several-failures", "close-after-dial-context-ended-and-connection-lost"}
 
 func TestVerifC09Child(t *testing.T) {
 	spec := vChildSpec()
@@ -467,7 +604,7 @@ func TestVerifC09Child(t *testing.T) {
 
 // C08: what a closed connection reports, with a state update in flight
 func TestVerifC08Closed(t *testing.T) {
-	vC09Run(t, []string{"state-update-in-flight"}, "closed/", 88)
+	vC09Run(t, []string{"state-update-in-flight", "state-while-close-waits-for-a-handler", "undecodable-frame-on-a-ready-connection"}, "closed/", 88)
 }
 
 func TestVerifC09(t *testing.T) {
